@@ -24,7 +24,9 @@ TECHNIQUE = "runtime monitoring: metamorphic oracle (solve the problem and its s
 LEVEL_TEXT = ("Problems and their images under seven symmetry classes are solved by the real solvers; the image solution is "
               "certified against the reference model of the transformed problem and, in the convex case, its objective is "
               "compared with that of the mapped original solution within the certificate-implied margin.  Permutations "
-              "move unpenalised features / the largest group to the array ends and use non-contiguous group index lists.")
+              "move unpenalised features / the largest group to the array ends and use non-contiguous group index lists.  "
+              "Column rescaling has a tight variant (tolerance expressed in the new units; unit-invariant solvers must then "
+              "converge whenever the original does); families include Cox with tied times and the sparse-group penalty.")
 LEVEL_NOTE = "trusted: vlib/refmath.py; the margin is a theorem for convex objectives, so it cannot fire on correct code"
 RULE = ("cases = (solver, datafit, penalty, symmetry class, instance); non-trivial = both runs converged and the solution "
         "is not identically zero; distinct = digest(case)")
